@@ -32,8 +32,9 @@ def run(tier):
     jobs, meta = [], []
     for vi, v in enumerate(vecs):
         tpls = [[n, G.src(n, d, compname="k")] for n, d in sorted(v["g"].items())]
-        for order in (tpls, list(reversed(tpls))):
-            steps = [{"op": "add", "tpls": order}]
+        for oi, order in enumerate((tpls, list(reversed(tpls)))):
+            # the reversed order goes through add_template_files (same contract, other entry point)
+            steps = [dict({"op": "add", "tpls": order}, **({"via": "files"} if oi else {}))]
             if v["ok"]:
                 steps += [{"op": "render", "name": n} for n, _ in tpls]
             steps.append({"op": "names"})
